@@ -86,6 +86,15 @@ def check_case(ctx, case, continuum=None):
     dissim = pool.get(dspec)
     if continuum is None:
         continuum = cases.build_continuum(cspec)
+    if case.get("refused_first"):
+        # a multi-step history in one thread: a call on a continuum the dissimilarity refuses part-way through its
+        # preparation (caught, as a caller would), then the call that is checked - it must not see anything of the first
+        try:
+            dissim.valid_alignments(cases.build_continuum(case["refused_first"]))
+            ctx.observe("refused_first", "accepted")
+        except Exception as e:
+            ctx.observe("refused_first", "refused:" + type(e).__name__)
+        ctx.count("M-CAND-AFTER-REFUSAL")
     try:
         disorders, tuples = dissim.valid_alignments(continuum)
     except BaseException as e:
@@ -280,6 +289,12 @@ def run(ctx):
         cspec = cases.gen_continuum(rng, n_annot=n, max_units=rng.randint(1, mx), labels=labels or cases.LABELS_SMALL,
                                     min_total=1)
         case = {"continuum": cspec, "dissim": dspec}
+        if labels is not None and rng.random() < 0.3:
+            # the same shape of continuum with one unit of a later annotator unlabelled / labelled outside the categories
+            bad = cases.gen_continuum(rng, n_annot=rng.randint(2, 4), max_units=3, labels=labels, min_total=3, allow_empty=False)
+            last = list(bad["ann"])[-1]
+            bad["ann"][last][-1][2] = rng.choice([None, "@not-a-category@"])
+            case["refused_first"] = bad
         ctx.begin_case(case, nontrivial=cases.spec_num_units(cspec) >= 2)
         ctx.observe("family", cspec.get("family"))
         ctx.observe("dissim", dspec["kind"])
